@@ -161,7 +161,9 @@ type crcApp struct {
 }
 
 func (ex *Exec) fresh(prefix string, w int) *Term {
-	t := ex.pool.Var(fmt.Sprintf("%s%d", prefix, ex.nvars), w)
+	// the sort is part of the name: the pool (and the solver's declarations) outlive a path, and the
+	// n-th input of another path may have a different width
+	t := ex.pool.Var(fmt.Sprintf("%s%dw%d", prefix, ex.nvars, w), w)
 	ex.nvars++
 	return t
 }
